@@ -82,6 +82,8 @@ let handle op args =
       let (obs, dig) = oneof_run repr (oneof_members_of members) (Stdlib.List.map oneof_op_of ops) in
       obs @ [dig]
   | "wire", _ :: repr :: members :: occ ->
+      (* "u<num>": an occurrence with the wrong wire type (an unknown field), ignored *)
+      let occ = Stdlib.List.filter (fun t -> t.[0] <> 'u') occ in
       let occ = Stdlib.List.map oneof_numval occ in
       let ops = Stdlib.List.map (fun (m, v) -> OWire (m, v)) occ in
       let (obs, dig) = oneof_run repr (oneof_members_of members) ops in
